@@ -71,7 +71,7 @@ theorem sprintNonNil_noPanic : ∀ xs : List GoVal, NoPanicRes (sprintNonNil xs)
     rw [sprintNonNil]
     split
     · exact sprintNonNil_noPanic xs
-    · exact NoPanicRes.bind (sprint_noPanic x) (fun _ => NoPanicRes.bind (sprintNonNil_noPanic xs) (fun _ => trivial))
+    · exact NoPanicRes.bind (sprint_noPanic _) (fun _ => NoPanicRes.bind (sprintNonNil_noPanic xs) (fun _ => trivial))
 
 theorem joinF_noPanic (xs : List GoVal) (sep : Bytes) : NoPanicRes (joinF xs sep) :=
   NoPanicRes.bind (sprintNonNil_noPanic xs) (fun _ => trivial)
